@@ -174,8 +174,8 @@ def run_mirror(ctx, proved, stats):
 # ----------------------------------------------------------------------------------------------- gate
 
 
-def exec_schema(binary, prelude):
-    rc, so, se = vf.sh([binary, "-mode", "schema"], timeout=120)
+def exec_schema(binary, prelude, override=None):
+    rc, so, se = vf.sh([binary, "-mode", "schema"] + (["-override", override] if override else []), timeout=120)
     if rc != 0:
         raise RuntimeError("schema dump failed: " + se[-2000:])
     s = json.loads(so)
@@ -229,25 +229,28 @@ def judge_disabled(ctx, stats, r, m, label, how, extra=None, report=None):
     return gated
 
 
-def run_gate(ctx, proved, stats, binary, label, fed, prelude, hbin):
-    n = (500 if ctx.tier == "quick" else 5000)
+def run_gate(ctx, proved, stats, binary, label, fed, prelude, hbin, override=None, n=None):
+    """`override`: file with the SDL the server is constructed with (Config.Schema); the gate must hold whatever is served"""
+    n = n or (500 if ctx.tier == "quick" else 5000)
+    ovargs = ["-override", override] if override else []
     args = [hbin, "-mode", "gate", "-seed", str(ctx.seed), "-n", str(n)] + (["-fed"] if fed else [])
     rc, so, se = vf.sh(args, timeout=600)
     if rc != 0:
         raise RuntimeError("gate case generation failed: " + se[-2000:])
     cases = [json.loads(l) for l in so.split("\n") if l]
     tags = {c["id"]: c.get("tags") or [] for c in cases}
-    rc, ro, re_ = vf.sh([binary, "-mode", "run"], inp=so, timeout=1800, env={"GOMEMLIMIT": "4GiB"})
+    rc, ro, re_ = vf.sh([binary, "-mode", "run"] + ovargs, inp=so, timeout=1800, env={"GOMEMLIMIT": "4GiB"})
     if rc != 0:
         raise RuntimeError("runner failed rc=%s: %s" % (rc, re_[-2000:]))
     res = [json.loads(l) for l in ro.split("\n") if l]
     byid = {r["id"]: r for r in res}
     dis = [r for r in res if r["id"].endswith("/false") and not r.get("gateErrors") and r.get("payloads")]
     stats["gate_rejected_by_validation"] += sum(1 for r in res if r.get("gateErrors"))
-    lines = ["schema " + json.dumps(exec_schema(binary, prelude))] + ["gate " + json.dumps(r) for r in dis]
+    lines = ["schema " + json.dumps(exec_schema(binary, prelude, override))] + ["gate " + json.dumps(r) for r in dis]
     out = ctx.driver("c16", lines)
     if out[0] != "ok":
         raise RuntimeError("driver did not accept the execution schema: " + out[0][:300])
+    how = "introspection extension NOT installed" + (", Config.Schema = the SDL in %s" % override if override else "")
     for r, o in zip(dis, out[1:]):
         stats["evaluations"] += 1
         for t in tags.get(r["id"], []):
@@ -259,7 +262,7 @@ def run_gate(ctx, proved, stats, binary, label, fed, prelude, hbin):
             ctx.violation({"kind": "check-error", "what": "gate driver output", "id": r["id"], "query": r["query"], "detail": o[:300]},
                           no_failing_input=True)
             continue
-        gated = judge_disabled(ctx, stats, r, m, label, "introspection extension NOT installed")
+        gated = judge_disabled(ctx, stats, r, m, label, how)
         # ---- control: the same query with the extension installed answers at __schema / _service
         on = byid.get(r["id"][:-len("false")] + "true")
         if on and on.get("payloads") and gated:
